@@ -440,11 +440,13 @@ def generate(sdl_text):
             for arg in s:
                 an, val = arg[0], arg[1]
                 var = arg[2] if len(arg) > 2 else ""
-                targs.append('[name |-> %s, type |-> %s, var |-> %s, val |-> %s]' % (
-                    tla_str(an), tla_str(type_str(atypes[an])), tla_str(var), tla_str(json.dumps(val, separators=(",", ":")))))
+                targs.append('[name |-> %s, type |-> %s, var |-> %s, val |-> %s, str |-> %s]' % (
+                    tla_str(an), tla_str(type_str(atypes[an])), tla_str(var), tla_str(json.dumps(val, separators=(",", ":"))),
+                    tla_str(val if isinstance(val, str) else "")))
             tsets.append(tla_seq(targs))
         pools.setdefault(tn, []).append((fn, tla_seq(tsets)))
-    a("\\* argument sets per field with arguments: ArgPool[type][field] = sequence of argument sets; val = JSON text")
+    a("\\* argument sets per field with arguments: ArgPool[type][field] = sequence of argument sets; val = JSON text,")
+    a("\\* str = the value itself if it is a string / enum value (used by the data rules of GQLShapeData), else \"\"")
     a("ArgPool ==\n  " + tla_fun([(tn, tla_fun(fs, indent="       ")) for tn, fs in pools.items()]))
     a("HasArgs ==\n  " + tla_fun([(n, tla_set([tla_str(f["name"]) for f in types[n].get("fields", []) if f["args"] and (n, f["name"]) in ARG_POOLS])) for n in comp]))
     a("")
